@@ -229,6 +229,7 @@ int tr_recv_sim(const void *sock, void *buf, const size_t len, const time_t time
 	sim_cancel_point();
 	unsigned k = ++p.recv_calls;
 	W.ctx.count("recv_calls");
+	W.event("recv", p.si);
 	if (p.cur_x >= 0)
 		p.xs[(size_t)p.cur_x].recv_calls_used = k;
 	if (!p.open) {
@@ -359,6 +360,11 @@ void pfx_cb(struct pfx_table *, const pfx_record rec, const bool added)
 		return;
 	PfxRec r = from_pfx_record(&rec, W->sm);
 	W->ctx.count("pfx_cb");
+	struct Ev {
+		World *w;
+		int si;
+		~Ev() { w->event("pfx_cb", si); }
+	} ev_guard{W, r.src};
 	if (r.src >= 0) {
 		if (added)
 			W->peers[(size_t)r.src].cb_add++;
@@ -637,6 +643,8 @@ void status_cb(const struct rtr_mgr_group *group, enum rtr_mgr_status status, co
 	int si = sock ? W->index_of(sock) : -1;
 	int st = sock ? (int)sock->state : -1;
 	W->ctx.count("status_cb");
+	if (sim_self() != W->main_task)
+		W->event("status", si);
 	W->note("status group=%u status=%d sock=%d state=%d", group->preference, (int)status, si, st);
 	sim_log(EV_CB, ((uint64_t)group->preference << 16) | ((uint64_t)status << 8) | (uint64_t)(si + 1), (uint64_t)(st + 1));
 	// socket state sequence only: the group status seen here depends on how the starting thread and the new socket
@@ -789,6 +797,19 @@ static void oracle_on_query_locked(World &W, Peer &p, Exchange &x)
 	if (maybe_expired(W, si) && b.has_success) {
 		W.model_pfx[(size_t)si] = of_src(actual_pfx_all(W), si);
 		W.model_spki[(size_t)si] = of_src(actual_spki_all(W), si);
+	}
+	// ---- C03: between two exchanges nothing but an expiry purge or a stop changes the records of this cache
+	if (!W.hostile && !(maybe_expired(W, si) && b.has_success)) {
+		std::set<PfxRec> ap = of_src(actual_pfx_all(W), si);
+		std::set<SpkiRec> as = of_src(actual_spki_all(W), si);
+		W.ctx.count("between_exchange_audits");
+		if (ap != W.model_pfx[(size_t)si] || as != W.model_spki[(size_t)si]) {
+			W.ctx.viol("C03", "records-changed-between-exchanges", "C03:between-exchanges:records-differ",
+				   "socket %d holds %zu prefix / %zu router-key records when it sends its query, but the previous exchanges (and stops) left %zu / %zu", si,
+				   ap.size(), as.size(), W.model_pfx[(size_t)si].size(), W.model_spki[(size_t)si].size());
+			W.model_pfx[(size_t)si] = ap;
+			W.model_spki[(size_t)si] = as;
+		}
 	}
 	// ---- C05: reset vs serial, session and serial carried
 	bool want_serial = b.has_session;
@@ -960,6 +981,12 @@ void sync_exit_locked(World &W, int si, int rc)
 		W.wins.back().newp = w.new_pfx;
 		W.wins.back().news = w.new_spki;
 	}
+	if (p.stopping || sock.state == RTR_SHUTDOWN) {
+		// the socket is being stopped (operator or failover) while this synchronisation was running: whatever it
+		// returned, rtr_stop purges the socket's records right after; judged by the stop audit (C07), not here
+		W.ctx.count("probe_sync_ended_by_stop");
+		return;
+	}
 	std::set<PfxRec> allp = actual_pfx_all(W);
 	std::set<SpkiRec> alls = actual_spki_all(W);
 	std::set<PfxRec> ap = of_src(allp, si);
@@ -1049,7 +1076,8 @@ void sync_exit_locked(World &W, int si, int rc)
 		// C08 presupposes that what the client accepted during the fault phase was honest: a response that is
 		// well-formed but does not carry the cache's real data (e.g. an extra End of Data in the middle) leaves a wrong
 		// base for later deltas that no client can detect
-		if (!(ap == p.data && as == (b.version >= 1 ? p.keys : std::set<SpkiRec>())) && !p.tainted) {
+		bool stream_honest = !(w.kind == WK_OK && !must_fail) || (w.new_pfx == p.data && w.new_spki == (w.version_after >= 1 ? p.keys : std::set<SpkiRec>()));
+		if (!stream_honest && !p.tainted) {
 			p.tainted = true;
 			W.ctx.count("probe_accepted_response_not_cache_state");
 		} else if (ap == p.data && as == (b.version >= 1 ? p.keys : std::set<SpkiRec>()))
@@ -1668,6 +1696,7 @@ void run_world(const J &plan, RunCtx &ctx)
 		for (int i = 0; i < W.n; i++)
 			serialise_callbacks(W, i);
 	check_group_order(W, "after init");
+	W.main_task = sim_self();
 	std::vector<ReaderArg> rargs;
 	std::vector<int> rtasks;
 	if (plan.has("c06")) {
@@ -1698,6 +1727,7 @@ void run_world(const J &plan, RunCtx &ctx)
 	bool want_converge = endc.gets("mode", "time") == "converge";
 	uint64_t hard_end = t0 + max_s * SIM_NS;
 	bool stopped = false;
+	uint64_t last_op_ns = t0;
 	// events that fall on the very instant the run ends are ordered by the scheduler, not by the byte stream:
 	// the digests used for metamorphic comparison stop just before it
 	if (!want_converge)
@@ -1714,10 +1744,34 @@ void run_world(const J &plan, RunCtx &ctx)
 	for (;;) {
 		uint64_t now = sim_now_ns();
 		uint64_t next = hard_end;
+		if (oi < oper.size() && oper[oi].has("on") && !W.trig_fired) {
+			// wait for the event (or the end of the run)
+			if (W.trig_ev.empty()) {
+				const J &on = oper[oi]["on"];
+				W.trig_ev = on.gets("ev", "pfx_cb");
+				W.trig_sock = (int)on.geti("sock", -1);
+				W.trig_n = on.geti("n", 1);
+			}
+			if (now >= hard_end)
+				break;
+			if (W.truncate) {
+				ctx.count("runs_truncated_by_step_budget");
+				break;
+			}
+			(void)sim_block(SIM_W_USER, &W, hard_end, 0);
+			continue;
+		}
 		if (oi < oper.size()) {
-			uint64_t t = t0 + (uint64_t)oper[oi].geti("at_ms") * 1000000ull;
+			uint64_t t = oper[oi].has("on")	       ? now
+				     : oper[oi].has("delay_ms") ? last_op_ns + (uint64_t)oper[oi].geti("delay_ms") * 1000000ull
+								: t0 + (uint64_t)oper[oi].geti("at_ms") * 1000000ull;
+			if (oper[oi].has("on")) {
+				W.trig_ev.clear();
+				W.trig_fired = false;
+			}
 			if (t <= now) {
 				const J &op = oper[oi++];
+				last_op_ns = now;
 				std::string k = op.gets("op");
 				ctx.count("oper_" + k);
 				sim_log(EV_USER, 7, oi);
